@@ -282,7 +282,13 @@ func (c *Ctx) typeID(t types.Type) int {
 	if id, ok := c.typeIDs[k]; ok {
 		return id
 	}
-	id := len(c.typeIDs) + 1
+	for i, u := range c.typeByID {
+		if types.Identical(t, u) {
+			c.typeIDs[k] = i + 1
+			return i + 1
+		}
+	}
+	id := len(c.typeByID) + 1
 	c.typeIDs[k] = id
 	c.typeByID = append(c.typeByID, t)
 	return id
@@ -293,8 +299,6 @@ func (c *Ctx) box(srt string, v Term) Term {
 	switch srt {
 	case "Int":
 		return v
-	case "Bool":
-		return "(ite " + v + " 1 0)"
 	}
 	c.ensureBox(srt)
 	return fmt.Sprintf("(box.%s %s)", srt, v)
@@ -304,8 +308,6 @@ func (c *Ctx) unbox(srt string, v Term) Term {
 	switch srt {
 	case "Int":
 		return v
-	case "Bool":
-		return "(= " + v + " 1)"
 	}
 	c.ensureBox(srt)
 	return fmt.Sprintf("(unbox.%s %s)", srt, v)
